@@ -1597,6 +1597,9 @@ impl ContinuityStore {
                 Err(_) => break,
             }
 
+            if tail_bytes >= MAX_TAIL_BYTES {
+                break;
+            }
             tail_bytes = (tail_bytes * 2).min(MAX_TAIL_BYTES);
         }
 
@@ -1769,6 +1772,7 @@ impl ContinuityStore {
 
         let mut tail_bytes = INITIAL_TAIL_BYTES;
         let mut scanned_sidecar = false;
+        let mut tail_complete = false;
         while tail_bytes <= MAX_TAIL_BYTES {
             match self
                 .stream_cache
@@ -1824,6 +1828,7 @@ impl ContinuityStore {
                     }
 
                     if tail.complete || by_key.len() >= MAX_KEYS {
+                        tail_complete = tail.complete;
                         break;
                     }
                 }
@@ -1831,10 +1836,15 @@ impl ContinuityStore {
                 Err(_) => break,
             }
 
+            if tail_bytes >= MAX_TAIL_BYTES {
+                break;
+            }
             tail_bytes = (tail_bytes * 2).min(MAX_TAIL_BYTES);
         }
 
-        if !scanned_sidecar {
+        if !scanned_sidecar || (!tail_complete && by_key.len() < MAX_KEYS) {
+            active = None;
+            by_key.clear();
             let events = self
                 .replay_events(thread_id)
                 .map_err(|err| format!("continuity replay failed: {err}"))?;
@@ -1982,6 +1992,9 @@ impl ContinuityStore {
                 Ok(None) => break,
                 Err(_) => break,
             }
+            if tail_bytes >= MAX_TAIL_BYTES {
+                break;
+            }
             tail_bytes = (tail_bytes * 2).min(MAX_TAIL_BYTES);
         }
 
@@ -2073,6 +2086,8 @@ impl ContinuityStore {
             {
                 Ok(Some(tail)) => {
                     scanned_sidecar = true;
+                    // Each enlarged window re-reads the previous one.
+                    decisions.clear();
                     for event in tail.events.iter().rev() {
                         let EventKind::ContinuityContextSelectionDecided {
                             run_session_id,
@@ -2151,6 +2166,9 @@ impl ContinuityStore {
                 Err(_) => break,
             }
 
+            if tail_bytes >= MAX_TAIL_BYTES {
+                break;
+            }
             tail_bytes = (tail_bytes * 2).min(MAX_TAIL_BYTES);
         }
 
